@@ -627,6 +627,9 @@ func rulesC11(c *Ctx) {
 		}
 		c.Check(ok405, "serveStateless:405-for-non-POST", f, nil, "any method other than POST is answered 405 with an Allow header and never reaches the transport")
 	})
+	c.Import("R-C11-9", "a dead or foreign session id is refused with a status the client can see: no return of the session-serving HTTP functions leaves the response untouched (a forgotten http.Error is an empty 200 — the request looks accepted)", "C12", "R-C12-10", func(k string) bool {
+		return strings.Contains(k, "lookupSession") || strings.Contains(k, "serveStateful") || strings.Contains(k, "serveStateless") || strings.Contains(k, "servePOST") || strings.Contains(k, "serveGET") || strings.Contains(k, "functions holding") || strings.Contains(k, "their returns")
+	})
 }
 
 // compatFlagVar returns the local of f that is assigned from a comparison of an MCPGODEBUG package
